@@ -42,7 +42,7 @@ Proof. exact copy_selects_proof. Qed.
    For every matcher, pattern lists and source tree: if every source path that exists in the
    destination has the same kind there (directory / non-directory) and the landing target is
    missing or a directory — an empty destination in particular — the copy succeeds: no mkdir or
-   create ever misses its parent directory, no lstat meets a non-directory on the way. *)
+   create ever misses its parent directory. *)
 Theorem copy_succeeds_on_compatible_destination :
   forall pmatch c rootst view fs0,
     wf_tree view = true ->
@@ -183,8 +183,8 @@ Example ex_existing_parent_chmod_only :
     Some ((ModeDir + ModeSticky + 511)%N, 5%N, 0%N, [])]).
 Proof. vm_compute. reflexivity. Qed.
 
-(* a FILE named a in the destination: the lstat below it fails, the copy aborts *)
-Example ex_parent_is_a_file : run_ex pm_lit cfg_deep dst_file_a [] = (Some ENotDir, [], []).
+(* a FILE named a in the destination where the parent a is needed: createParentDirs reports it *)
+Example ex_parent_is_a_file : run_ex pm_lit cfg_deep dst_file_a [] = (Some EDirOverNondir, [], []).
 Proof. vm_compute. reflexivity. Qed.
 
 (* **, !, trailing /*, directories that match but have no selected descendant (a/b/baz, foo), a
